@@ -4,11 +4,14 @@ import (
 	"encoding/json"
 	"fmt"
 	"os"
+	"sort"
 	"sync"
 
 	"github.com/llir/llvm/asm"
 	"github.com/llir/llvm/ir"
 
+	"runtime"
+	"sync/atomic"
 	"verif/harness/mbt"
 	"verif/harness/props/corpus"
 	"verif/harness/props/modgen"
@@ -173,10 +176,71 @@ func childCorpus(sc scenario) {
 	}
 	var mods []mod
 	res := childResult{}
+	// cold round: the process has printed nothing yet (no hook installed: it would count SetIDs in a shared cell)
+	coldText := map[int][]string{} // index of the text -> text per goroutine ("" = panicked)
+	if sc.Cold {
+		var cms []*ir.Module
+		var names []int
+		// smallest texts first: the first use of a lazily initialised table then falls into a module that the
+		// printers, released together, get through within microseconds of each other
+		byLen := make([]int, len(items))
+		for ii := range items {
+			byLen[ii] = ii
+		}
+		sort.SliceStable(byLen, func(a, b int) bool { return len(items[byLen[a]].Text) < len(items[byLen[b]].Text) })
+		for _, ii := range byLen {
+			it := items[ii]
+			var m *ir.Module
+			var e1 error
+			if _, p := mbt.Guard(func() { m, e1 = asm.ParseString(it.Name, it.Text) }); p || e1 != nil {
+				continue
+			}
+			cms = append(cms, m)
+			names = append(names, ii)
+		}
+		got := make([][]string, sc.N)
+		arrived := make([]int32, len(cms))
+		startC := make(chan struct{})
+		var wgc sync.WaitGroup
+		for i := 0; i < sc.N; i++ {
+			got[i] = make([]string, len(cms))
+			wgc.Add(1)
+			go func(i int) {
+				defer wgc.Done()
+				<-startC
+				for k := range cms {
+					// all printers start on module k together: whatever package-level state its printing paths
+					// initialise on first use is initialised by N goroutines at once
+					atomic.AddInt32(&arrived[k], 1)
+					for atomic.LoadInt32(&arrived[k]) < int32(sc.N) {
+						runtime.Gosched()
+					}
+					mbt.Guard(func() { got[i][k] = call(entryOf(sc.Mix, i), cms[k]) })
+				}
+			}(i)
+		}
+		close(startC)
+		if dl := waitOrDeadlock(&wgc, sc.N); dl != "" {
+			res.Deadlock = "first prints of the process: " + dl
+			res.Modules = len(cms)
+			out, _ := json.Marshal(res)
+			if err := os.WriteFile(sc.Out, out, 0o644); err != nil {
+				fmt.Println("child: cannot write result:", err)
+				os.Exit(3)
+			}
+			os.Exit(0)
+		}
+		for k, nm := range names {
+			for i := 0; i < sc.N; i++ {
+				coldText[nm] = append(coldText[nm], got[i][k])
+			}
+		}
+		res.Calls += sc.N * len(cms)
+	}
 	ir.VerifHook = hook
 	fresh := 0
 	countSetIDs = &fresh
-	for _, it := range items {
+	for ii, it := range items {
 		var m, refm *ir.Module
 		var e1, e2 error
 		if _, p := mbt.Guard(func() {
@@ -207,6 +271,16 @@ func childCorpus(sc scenario) {
 			continue
 		}
 		mods = append(mods, md)
+		for i, t := range coldText[ii] {
+			e := entryOf(sc.Mix, i)
+			if t != md.ref[e] { // "" = the cold call panicked although the sequential call prints
+				if len(res.Mismatches) < 20 {
+					res.Mismatches = append(res.Mismatches, mismatch{Entry: e, Module: it.Name + " (first prints of the process, concurrent)", Want: md.ref[e], Got: t})
+				} else {
+					res.Mismatches = append(res.Mismatches, mismatch{Entry: e})
+				}
+			}
+		}
 	}
 	countSetIDs = nil
 	if sc.Start != "already-printed" {
@@ -262,8 +336,17 @@ func childCorpus(sc scenario) {
 		}(i)
 	}
 	close(start)
-	wg.Wait()
-	res.Calls = sc.N * 3 * n
+	if dl := waitOrDeadlock(&wg, sc.N); dl != "" {
+		res.Deadlock = dl
+		res.Modules = n
+		out, _ := json.Marshal(res)
+		if err := os.WriteFile(sc.Out, out, 0o644); err != nil {
+			fmt.Println("child: cannot write result:", err)
+			os.Exit(3)
+		}
+		os.Exit(0)
+	}
+	res.Calls += sc.N * 3 * n
 	if sc.Rounds > 1 {
 		res.Calls *= sc.Rounds
 	}
